@@ -237,12 +237,17 @@ def explore(make, script_of, bound, judge, res, case, only=None, max_execs=None,
             res.count('exploration_cap_hits')
             return
         taken = run.taken
+        nth = 0
         for i in range(len(prefix), len(taken)):
-            if shard and not prefix and i % shard[1] != shard[0]:
+            if shard and not first and not prefix and i % shard[1] != shard[0]:
                 continue            # another shard explores the deviations starting here
             for alt in range(1, len(run.costs[i])):
                 c2 = cost + run.costs[i][alt]
-                if first and not prefix and run.menus[i][alt] != first:
-                    continue
+                if first and not prefix:
+                    if run.menus[i][alt] != first:
+                        continue
+                    nth += 1        # a slice is sharded by the occurrences of its label
+                    if shard and nth % shard[1] != shard[0]:
+                        continue
                 if c2 <= bound:
                     stack.append((taken[:i] + [alt], c2))
